@@ -91,6 +91,69 @@ func run(repo string) (string, error) {
 	b.WriteString("establishKeys passes to keysFromMasterSecret -/\n")
 	b.WriteString("def suiteRows : List (Nat × Nat × Nat × Nat × Bool) := " + zvx.LeanList(items) + "\n\n")
 
+	for _, t := range []struct {
+		name, doc string
+		rows      []tls.ZV26Suite
+	}{
+		{"tableImplemented", "implementedCipherSuites with the full flags word: the table cipherSuiteByID (hence mutualCipherSuite, the client's hs.suite, the server's suite selection, establishKeys) reads", tls.ZVSuites()},
+		{"tableAdvertised", "cipherSuites with the full flags word: the table makeClientHello and the default suite list read (id and flags only)", tls.ZVSuitesAdvertised()},
+	} {
+		items = items[:0]
+		for _, s := range t.rows {
+			items = append(items, fmt.Sprintf("(0x%04X, %d, %d, %d, %d)", s.ID, s.MacLen, s.KeyLen, s.IVLen, s.Flags))
+		}
+		b.WriteString("/-- " + t.doc + ": (id, macLen, keyLen, ivLen, flags), in table order -/\n")
+		b.WriteString("def " + t.name + " : List (Nat × Nat × Nat × Nat × Nat) := " + zvx.LeanList(items) + "\n\n")
+	}
+	b.WriteString(fmt.Sprintf("/-- the suiteSHA384 flag bit -/\ndef suiteSHA384Bit : Nat := %d\n\n", tls.ZVSuiteSHA384Bit()))
+	// which table each consumer ranges over (go/ast over tls/*.go): (file, function, table)
+	{
+		fset := token.NewFileSet()
+		var uses []string
+		for _, file := range []string{"cipher_suites.go", "common.go", "handshake_client.go", "handshake_server.go"} {
+			f, err := parser.ParseFile(fset, filepath.Join(repo, "tls", file), nil, 0)
+			if err != nil {
+				return "", err
+			}
+			for _, d := range f.Decls {
+				fd, ok := d.(*ast.FuncDecl)
+				if !ok || fd.Body == nil {
+					continue
+				}
+				var visit func(n ast.Node) bool
+				visit = func(n ast.Node) bool {
+					switch x := n.(type) {
+					case *ast.SelectorExpr: // hello.cipherSuites, c.cipherSuites(): fields / methods, not the tables
+						ast.Inspect(x.X, visit)
+						return false
+					case *ast.Ident:
+						if x.Name == "cipherSuites" || x.Name == "implementedCipherSuites" {
+							local := false
+							if x.Obj != nil {
+								switch x.Obj.Decl.(type) {
+								case *ast.AssignStmt, *ast.Field:
+									local = true
+								}
+							}
+							if !local {
+								uses = append(uses, fmt.Sprintf("(%s, %s, %s)", zvx.LeanStr(file), zvx.LeanStr(fd.Name.Name), zvx.LeanStr(x.Name)))
+							}
+						}
+					case *ast.CallExpr:
+						if id, ok := x.Fun.(*ast.Ident); ok && (id.Name == "cipherSuiteByID" || id.Name == "mutualCipherSuite") {
+							uses = append(uses, fmt.Sprintf("(%s, %s, %s)", zvx.LeanStr(file), zvx.LeanStr(fd.Name.Name), zvx.LeanStr("call:"+id.Name)))
+						}
+					}
+					return true
+				}
+				ast.Inspect(fd.Body, visit)
+			}
+		}
+		b.WriteString("/-- every read of the two TLS <= 1.2 suite tables and every call of the lookup functions in cipher_suites.go, common.go,\n")
+		b.WriteString("handshake_client.go, handshake_server.go (file, function, table | call:function), in source order -/\n")
+		b.WriteString("def suiteTableUses : List (String × String × String) := " + zvx.LeanList(uses) + "\n\n")
+	}
+
 	items = items[:0]
 	for _, s := range tls.ZVSuites13() {
 		hn := map[string]string{"SHA-256": "sha256", "SHA-384": "sha384", "SHA-512": "sha512"}[s.Hash.String()]
